@@ -1532,7 +1532,8 @@ fn exec_linewise(args: &Opts) {
 						fs::copy(path, &backup_path).unwrap_or_else(complain_and_exit);
 					}
 					fs::write(path, std::mem::take(&mut output)).unwrap_or_else(complain_and_exit);
-				} else {
+				} else if args.files.len() == 1 || !output.is_empty() {
+					// Like the multi-threaded driver: with several files, one without output is not listed
 					if args.files.len() > 1 {
 						writeln!(stdout,"--- {}", path.display()).ok();
 					}
@@ -1625,7 +1626,8 @@ fn exec_files(args: &Opts) {
 							fs::copy(path, &backup_path).unwrap_or_else(complain_and_exit);
 						}
 						fs::write(path, std::mem::take(&mut output)).unwrap_or_else(complain_and_exit);
-					} else {
+					} else if args.files.len() == 1 || !output.is_empty() {
+						// Like the multi-threaded driver: with several files, one without output is not listed
 						if args.files.len() > 1 {
 							writeln!(stdout,"--- {}", path.display()).ok();
 						}
